@@ -421,14 +421,95 @@ fn c14_units(tier: Tier) -> Vec<Unit> {
             }
         },
     ));
+    // ---- set_handler: the argument block anywhere around the memory the call itself writes
+    units.push(Unit::new(
+        "set_handler/block-placement",
+        9,
+        "ER0=113 for every vector 1-63 with the argument block at every byte address of H'FFFD00-H'FFFE1F (the area in which the call keeps its per-vector bookkeeping) and at every byte address from 12 below to 8 above the vector's own table entry: vector number and handler address are the ones the block held when the call was made - an interrupt of that vector must enter that address",
+        move |ctx, chunk| {
+            ensure_socket(ctx);
+            for v in (1u32..=63).filter(|v| (*v as u64) % 9 == chunk) {
+                let h = 0x0041_2340u32 + 4 * v;
+                let mut blocks: Vec<u32> = (0xfffd00u32..=0xfffe1f).collect();
+                blocks.extend((4 * v).saturating_sub(12)..=(4 * v + 8).min(0xf8));
+                for arg in blocks {
+                    let pc = dom::CODE_RAM;
+                    let mut c = Case::new(pc, &[0x57, 0x00]);
+                    c.er = dom::background_regs();
+                    c.er[0] = 113;
+                    c.er[1] = arg;
+                    c.er[5] = 0x0041_7770;
+                    c.er[7] = 0x00ffe700;
+                    c.ccr = 0x05;
+                    let code = c.code;
+                    ctx.m.poke_bytes(pc, &code);
+                    ctx.m.poke_bytes(arg, &v.to_be_bytes());
+                    ctx.m.poke_bytes(arg + 4, &h.to_be_bytes());
+                    c.code_sticky = true;
+                    drain();
+                    let act = ctx.execute(&c);
+                    ctx.st.cases += 1;
+                    ctx.st.nontrivial += 1;
+                    let case = json!({"call": "set_handler", "vector": v, "address": format!("{:08x}", h), "block": format!("{:06x}", arg)});
+                    let mut verdict: Option<String> = None;
+                    if !matches!(act, Actual::Ok(_)) {
+                        verdict = Some(format!("set_handler did not complete: {:?}", act));
+                    } else {
+                        let cpu = &ctx.m.cpu;
+                        if cpu.vh_pc() != pc + 2 || cpu.er != c.er || cpu.vh_ccr() != c.ccr {
+                            verdict = Some(format!("registers / CCR / PC changed by set_handler: PC {:06x} CCR {:02x} ER {:08x?}", cpu.vh_pc(), cpu.vh_ccr(), cpu.er));
+                        }
+                    }
+                    if verdict.is_none() {
+                        let written: Vec<u32> = ctx.wlog_all();
+                        for a in written.iter() {
+                            ctx.m.mark_dirty(*a);
+                            ctx.m.accept(*a);
+                        }
+                        let mut ic = Case::new(0x410000, &[]);
+                        ic.code_len = 0;
+                        ic.code_sticky = true;
+                        ic.kind = Kind::Irq(v as u8);
+                        ic.er = dom::background_regs();
+                        ic.er[7] = 0x00ffe700;
+                        ic.ccr = 0x00;
+                        let a2 = ctx.execute(&ic);
+                        let pc_after = ctx.m.cpu.vh_pc();
+                        let wl = ctx.wlog_all();
+                        for a in wl {
+                            ctx.m.mark_dirty(a);
+                            ctx.m.accept(a);
+                        }
+                        if !matches!(a2, Actual::Ok(_)) || pc_after != (h & 0xffffff) {
+                            verdict = Some(format!("after set_handler({}, {:08x}) with the argument block at {:06x} an interrupt of vector {} enters {:06x} ({:?})", v, h, arg, v, pc_after, a2));
+                        }
+                    }
+                    if let Some(msg) = verdict {
+                        ctx.custom_violation("c14", msg, case, json!(null), json!(null));
+                    }
+                    ctx.m.restore();
+                }
+            }
+        },
+    ));
     // ---- other call numbers are errors
     units.push(Unit::new(
         "other-ids",
-        1,
-        "every call number 0-4095 except 104 and 113, all 2^k and 2^k +- 1, 0xffffffff: execution stops with an error and no memory changes",
-        move |ctx, _| {
+        4,
+        "every call number 0-4095 except 104 and 113, all 2^k and 2^k +- 1, 0xffffffff, every number whose low 16 bits are 104 or 113 with a non-zero upper half (2 x 65535), 104 and 113 shifted into the other bytes; ER1 points to a block that is a valid argument block for both calls, so a call that is carried out shows as a message or a changed vector: execution stops with an error and no memory changes",
+        move |ctx, chunk| {
             ensure_socket(ctx);
             let mut ids: Vec<u32> = (0..4096).collect();
+            for hi in 1..=0xffffu32 {
+                ids.push(hi << 16 | 104);
+                ids.push(hi << 16 | 113);
+            }
+            for sh in [8u32, 16, 24] {
+                ids.push(104 << sh);
+                ids.push(113 << sh);
+                ids.push(104 << sh | 104);
+                ids.push(113 << sh | 113);
+            }
             for b in 0..32 {
                 ids.push(1u32 << b);
                 ids.push((1u32 << b).wrapping_sub(1));
@@ -436,7 +517,8 @@ fn c14_units(tier: Tier) -> Vec<Unit> {
             }
             ids.push(0xffff_ffff);
             ids.retain(|x| *x != 104 && *x != 113);
-            for id in ids {
+            let (lo, hi) = chunk_range(ids.len() as u64, 4, chunk);
+            for id in ids[lo as usize..hi as usize].iter().copied() {
                 let mut c = Case::new(dom::CODE_RAM, &[0x57, 0x00]);
                 c.er = dom::background_regs();
                 c.er[0] = id;
@@ -444,6 +526,11 @@ fn c14_units(tier: Tier) -> Vec<Unit> {
                 c.er[7] = 0x00ffe700;
                 let code = c.code;
                 ctx.m.poke_bytes(c.pc, &code);
+                // {fd / vector = 1, buffer / handler address, length 3}: valid for a write and for a set_handler
+                ctx.m.poke_bytes(0xffe900, &1u32.to_be_bytes());
+                ctx.m.poke_bytes(0xffe904, &0x00ffea00u32.to_be_bytes());
+                ctx.m.poke_bytes(0xffe908, &3u32.to_be_bytes());
+                ctx.m.poke_bytes(0xffea00, b"abc");
                 c.code_sticky = true;
                 drain();
                 let act = ctx.execute(&c);
@@ -601,8 +688,14 @@ pub fn replay_c14(case: &Value) -> bool {
             c.er[0] = id;
             c.er[1] = 0xffe900;
             c.er[7] = 0x00ffe700;
+            let code = c.code;
+            ctx.m.poke_bytes(c.pc, &code);
+            ctx.m.poke_bytes(0xffe900, &1u32.to_be_bytes());
+            ctx.m.poke_bytes(0xffe904, &0x00ffea00u32.to_be_bytes());
+            ctx.m.poke_bytes(0xffe908, &3u32.to_be_bytes());
+            ctx.m.poke_bytes(0xffea00, b"abc");
             let act = ctx.execute(&c);
-            println!("call number {}: {:?}", id, act);
+            println!("call number {} (H'{:08x}): {:?}", id, id, act);
             matches!(act, Actual::Err(_))
         }
         _ => {
